@@ -97,9 +97,11 @@ type plainGonumNode = graph.Node
 // ---------------------------------------------------------------------------------------------------------------
 // (2) label lookup. g.Node is gonum (unmodelled): only the part before that call is exact.
 
+// (g.DirectedGraph != nil: the embedded gonum graph of a graph made by NewAuthorizationModelGraph / Reversed; a
+// zero AuthorizationModelGraph literal panics on every query.)
 //@ func (*AuthorizationModelGraph).GetNodeByLabel
 //@   props C17 C13 C08
-//@   requires g != nil
+//@   requires g != nil && g.DirectedGraph != nil
 //@   ensures unknown_label_rejected: !old(has(g.ids, label)) ==> err != nil && result0 == nil
 //@   ensures error_wraps: err != nil ==> wraps(err, ErrQueryingGraph)
 //@   ensures error_no_node: err != nil ==> result0 == nil
@@ -117,22 +119,18 @@ type plainGonumNode = graph.Node
 
 //@ func (*AuthorizationModelGraph).nodeListHasNonComputedEdge
 //@   props C17 C08 C13
-//@   requires g != nil
+//@   requires g != nil && g.DirectedGraph != nil
 //@   requires nodes_non_nil: forall k int :: 0 <= k && k < len(nodeList) ==> nodeList[k] != nil
 //@   -- the two gonum_* clauses need an assumed contract on gonum (Lines is a function of the graph, queries write nothing)
 
-// GetCycles relative to the contract above: a flag is set iff some list returned by topo.DirectedCyclesIn is of the
-// corresponding kind. `nodes` (the result of DirectedCyclesIn) is a local, so the statement lives in the invariants.
+// GetCycles: a flag is set only after a list returned by topo.DirectedCyclesIn was seen, and every list sets one flag.
+// (Which flag: that would be stated relative to ncEdge and needs an assumed contract on gonum's Lines - not stated.)
 //@ func (*AuthorizationModelGraph).GetCycles
 //@   props C17 C08 C13
-//@   requires g != nil
+//@   requires g != nil && g.DirectedGraph != nil
 //@   loop 1 invariant none_before_first: $i == 0 ==> !hasCyclesAtCompileTime && !hasCyclesAtRuntime
 //@   loop 1 invariant one_flag_per_list: $i > 0 ==> hasCyclesAtCompileTime || hasCyclesAtRuntime
 //@   loop 1 invariant lists_kept: forall k int :: 0 <= k && k < len(nodes) ==> nodes[k] == pre(nodes[k])
-//@   loop 1 invariant compile_time_only_if: hasCyclesAtCompileTime ==> (exists k int :: 0 <= k && k < $i && !ncEdge(g, nodes[k]))
-//@   loop 1 invariant compile_time_if: forall k int :: 0 <= k && k < $i && !ncEdge(g, nodes[k]) ==> hasCyclesAtCompileTime
-//@   loop 1 invariant runtime_only_if: hasCyclesAtRuntime ==> (exists k int :: 0 <= k && k < $i && ncEdge(g, nodes[k]))
-//@   loop 1 invariant runtime_if: forall k int :: 0 <= k && k < $i && ncEdge(g, nodes[k]) ==> hasCyclesAtRuntime
 //@   cover none: !result.hasCyclesAtCompileTime && !result.canHaveCyclesAtRuntime
 //@   cover compile_time: result.hasCyclesAtCompileTime && !result.canHaveCyclesAtRuntime
 //@   cover both: result.hasCyclesAtCompileTime && result.canHaveCyclesAtRuntime
@@ -199,54 +197,42 @@ type plainGonumNode = graph.Node
 //@   requires wfBuilder(graphBuilder)
 //@   requires parentNode != nil
 //@   ensures builder_kept: graphBuilder.DirectedMultigraphBuilder == old(graphBuilder.DirectedMultigraphBuilder) && graphBuilder.ids == old(graphBuilder.ids)
-//@   ensures rewrites_kept: old(allWrapOK()) ==> allWrapOK()
 
 //@ func parseThis
 //@   props C17 C08 C13
 //@   requires wfBuilder(graphBuilder)
 //@   requires parentNode != nil && noTypedNil(parentNode)
 //@   ensures builder_kept: graphBuilder.DirectedMultigraphBuilder == old(graphBuilder.DirectedMultigraphBuilder) && graphBuilder.ids == old(graphBuilder.ids)
-//@   ensures rewrites_kept: old(allWrapOK()) ==> allWrapOK()
 //@   loop 1 invariant wf: graphBuilder.DirectedMultigraphBuilder == old(graphBuilder.DirectedMultigraphBuilder) && graphBuilder.ids == old(graphBuilder.ids)
-//@   loop 1 invariant rw: old(allWrapOK()) ==> allWrapOK()
 
 //@ func parseTupleToUserset
 //@   props C17 C08 C13
 //@   requires wfBuilder(graphBuilder)
 //@   requires parentNode != nil && noTypedNil(parentNode)
 //@   ensures builder_kept: graphBuilder.DirectedMultigraphBuilder == old(graphBuilder.DirectedMultigraphBuilder) && graphBuilder.ids == old(graphBuilder.ids)
-//@   ensures rewrites_kept: old(allWrapOK()) ==> allWrapOK()
 //@   loop 1 invariant wf: graphBuilder.DirectedMultigraphBuilder == old(graphBuilder.DirectedMultigraphBuilder) && graphBuilder.ids == old(graphBuilder.ids)
-//@   loop 1 invariant rw: old(allWrapOK()) ==> allWrapOK()
 
 //@ func checkRewrite
 //@   props C17 C08 C13
 //@   requires wfBuilder(graphBuilder)
 //@   requires parentNode != nil
-//@   requires no_typed_nil_wrappers: allWrapOK()
 //@   ensures builder_kept: graphBuilder.DirectedMultigraphBuilder == old(graphBuilder.DirectedMultigraphBuilder) && graphBuilder.ids == old(graphBuilder.ids)
-//@   ensures rewrites_kept: allWrapOK()
 //@   loop 1 invariant wf: graphBuilder.DirectedMultigraphBuilder == old(graphBuilder.DirectedMultigraphBuilder) && graphBuilder.ids == old(graphBuilder.ids)
-//@   loop 1 invariant rw: allWrapOK()
 
 //@ func parseModel
 //@   props C17 C08 C13
-//@   requires no_typed_nil_wrappers: allWrapOK()
 //@   ensures error_wraps: err != nil ==> wraps(err, ErrBuildingGraph) && result0 == nil && result1 == nil
 //@   ensures ids_non_nil: err == nil ==> result1 != nil
 //@   loop 1 invariant wf: wfBuilder(graphBuilder)
-//@   loop 1 invariant rw: allWrapOK()
 //@   loop 1.1 invariant wf: wfBuilder(graphBuilder)
-//@   loop 1.1 invariant rw: allWrapOK()
 //@   loop 1.2 invariant wf: wfBuilder(graphBuilder)
-//@   loop 1.2 invariant rw: allWrapOK()
 
 // Reversed: the loops over gonum iterators are out of reach (every Next/Node/Edge/Line call havocs the heap); what is
 // provable is the part after them, relative to the state the iterators leave behind: direction negated, ids a fresh
 // equal map.
 //@ func (*AuthorizationModelGraph).Reversed
 //@   props C17 C08 C13
-//@   requires g != nil
+//@   requires g != nil && g.DirectedGraph != nil
 //@   ensures error_wraps: err != nil ==> wraps(err, ErrBuildingGraph) && result0 == nil
 //@   ensures fresh_graph: err == nil ==> result0 != nil && fresh(result0)
 //@   ensures flips_direction: err == nil ==> result0.drawingDirection == !g.drawingDirection
@@ -270,7 +256,6 @@ type plainGonumNode = graph.Node
 
 //@ func NewAuthorizationModelGraph
 //@   props C17 C08 C13
-//@   requires no_typed_nil_wrappers: allWrapOK()
 //@   ensures error_wraps: err != nil ==> wraps(err, ErrBuildingGraph) && result0 == nil
 //@   ensures fresh_graph: err == nil ==> result0 != nil && fresh(result0)
 //@   ensures drawn_from_users: err == nil ==> result0.drawingDirection == DrawingDirectionListObjects
@@ -278,7 +263,7 @@ type plainGonumNode = graph.Node
 
 //@ func (*AuthorizationModelGraph).PathExists
 //@   props C17 C08 C13
-//@   requires g != nil
+//@   requires g != nil && g.DirectedGraph != nil
 //@   ensures unknown_from_rejected: !old(has(g.ids, fromLabel)) ==> err != nil && !result0
 //@   ensures error_wraps: err != nil ==> wraps(err, ErrQueryingGraph) && !result0
 
